@@ -21,6 +21,7 @@ Directive grammar (one per line, leading blanks allowed):
   //@atstart             ghost text inserted right after the opening brace of the body
   //@atend               ghost text inserted right before the tail expression of the body
   //@afterloop N         ghost text inserted right after the closing brace of the N-th loop
+  //@loopstart N / //@loopend N   ghost text at the beginning / end of the body of the N-th loop
   //@tail NAME           the tail expression E becomes `let NAME = E; <ghost text> NAME` (R16)
   //@replace "old" => "new" :: reason      function-specific rewrite (logged as F)
   //@replaceall "old" => "new" :: reason   the same for every occurrence
@@ -490,6 +491,12 @@ class Unit:
                 elif kw == 'atend':
                     # //@atend: ghost text placed right before the tail expression of the body (the function's final exit)
                     ent = dict(where='atend', anchor=None, nth=0, lines=[])
+                    spec['hints'].append(ent)
+                    cur = ent['lines']
+                elif kw in ('loopstart', 'loopend'):
+                    # //@loopstart N / //@loopend N: ghost text at the beginning / the end of the body of the N-th loop (positional:
+                    # independent of the statements in the body)
+                    ent = dict(where=kw, anchor=None, nth=int(rest.strip()), lines=[])
                     spec['hints'].append(ent)
                     cur = ent['lines']
                 elif kw == 'afterloop':
@@ -1082,6 +1089,19 @@ class Unit:
                     edits.append((ls_, ls_, '\n'.join(h['lines']) + '\n', None))
                 else:
                     edits.append((at, at, '\n' + '\n'.join(h['lines']) + '\n', None))
+                continue
+            if h['where'] in ('loopstart', 'loopend'):
+                if h['nth'] < 1 or h['nth'] > len(loops):
+                    self.lost_anchors.append('%s: %s %d: function has %d loops' % (path, h['where'], h['nth'], len(loops)))
+                    continue
+                ob_ = loops[h['nth'] - 1][2]
+                if h['where'] == 'loopstart':
+                    nl_ = body.find('\n', ob_)
+                    edits.append((nl_ + 1, nl_ + 1, '\n'.join(h['lines']) + '\n', None))
+                else:
+                    cb_ = match_close(body, sn.mask, ob_)
+                    ls_ = body.rfind('\n', 0, cb_) + 1
+                    edits.append((ls_, ls_, '\n'.join(h['lines']) + '\n', None))
                 continue
             if h['where'] == 'afterloop':
                 if h['nth'] < 1 or h['nth'] > len(loops):
